@@ -67,7 +67,7 @@ def duration_paths():
 
 
 class Template:
-    def __init__(self, w, prog, nsent):
+    def __init__(self, w, prog, nsent, machine=None):
         self.w = w
         self.prog = prog
         self.nsent = nsent
@@ -81,7 +81,7 @@ class Template:
             hits = [i for i in self.program if i.op_code is OpCode.MOVEQ and i.param0 == SENT[k]]
             assert len(hits) == 1, (text, k, hits)
             self.slots.append(hits[0])
-        self.machine = Machine()
+        self.machine = machine or Machine()
         self.ref = refmod.Ref(w.population)
 
     def _subst(self, node, vals):
@@ -189,6 +189,37 @@ def _worker(rank, n, tier):
     return st
 
 
+def _reuse_worker(rank, n, tier):
+    """One Machine executes scripts of different unit modes one after another (as a re-executed job does):
+    what is transmitted depends on the current script only."""
+    w = world.World(POP)
+    st = dict(cases=0, templates=0, viol={})
+    if rank != 0:
+        return st
+    cp = color_paths()
+    m = Machine()
+    temps = {}
+    for mode, base, reg in (('logical', BASE_LOGICAL, 'hue'), ('raw', BASE_RAW, 'hue'), ('rgb', BASE_RGB, 'red')):
+        for path in ('light', 'all', 'zone', 'matrix-cell'):
+            # the script ends in its own mode (raw scripts end raw, rgb scripts end rgb)
+            temps[(mode, path)] = Template(w, base + (setreg(reg, SENT[0]),) + cp[path], 1, machine=m)
+    vals = {'logical': (120.5, 359.9), 'raw': (12345, 65535), 'rgb': (10.5, 99.5)}
+    for (ka, ta), (kb, tb) in itertools.permutations(temps.items(), 2):
+        for va in vals[ka[0]]:
+            for vb in vals[kb[0]]:
+                st['cases'] += 1
+                ta.run((va,))
+                bad = tb.run((vb,))
+                if bad is not None:
+                    kind = 'after-a-%s-script-a-%s-script-transmits-wrong-values' % (ka[0], kb[0])
+                    cur = st['viol'].get(kind)
+                    if cur is None:
+                        st['viol'][kind] = [1, ta.text + '  THEN (same machine)  ' + tb.text, (va, vb), repr(bad[1])]
+                    else:
+                        cur[0] += 1
+    return st
+
+
 def _roundtrip_worker(rank, n, tier):
     """raw colour on the light -> `get` in logical units -> `set` another light: same raw colour."""
     w = world.World(POP)
@@ -239,8 +270,9 @@ def run(tier, seed):
     rep = Report()
     res = par.run(_worker, (tier,))
     rres = par.run(_roundtrip_worker, (tier,))
+    ures = par.run(_reuse_worker, (tier,), nproc=1)
     viol = {}
-    for r in res + rres:
+    for r in res + rres + ures:
         for kind, (cnt, text, vals, detail) in r['viol'].items():
             cur = viol.get(kind)
             if cur is None:
@@ -251,7 +283,7 @@ def run(tier, seed):
         rep.violation(kind, '%s (%d values), e.g. `%s` with %r: %s' % (kind, cnt, text, vals, detail),
                       {'script': text, 'values': vals, 'detail': detail, 'cases': cnt})
     n_cases = sum(r['cases'] for r in res)
-    n_rt = sum(r['cases'] for r in rres)
+    n_rt = sum(r['cases'] for r in rres) + sum(r['cases'] for r in ures)
     names = [c[0] for c in cases(tier)]
     rep.coverage = {
         'states': n_cases + n_rt, 'transitions': n_cases + n_rt,
